@@ -233,6 +233,20 @@ theorem combinators_keep_location (t : List Ch) (k : Option Nat) (ops : List Op)
   obtain ⟨g, new, e1, e2⟩ := hs
   exact ⟨g.loc, new, e1, fun e he => (e2 e he).loc⟩
 
+/-- **Location invariant for histories that interleave reads, position saves, rewinds AND whole
+parses** (any grammar, any skipper, any read budget, any length): the buffer is the text, the index
+is inside it, the stored location is the true line/column of the index, and every saved position is
+`(i, line i, column i)` for an index `i` of the text — so a position saved before, between or after
+parses can be restored at any later point. -/
+theorem location_inv_with_parses (t : List Ch) (k : Option Nat) (xs : List XOp) :
+    let x := xrun (HState.open t k) xs
+    x.s.is.buf = t ∧ x.s.is.idx ≤ t.length ∧ x.s.loc = ⟨line t x.s.is.idx, column t x.s.is.idx⟩ ∧
+      ∀ p ∈ x.saved, ∃ i, i ≤ t.length ∧ p = ⟨(i : Int), some ⟨line t i, column t i⟩⟩ := by
+  intro x
+  obtain ⟨g1, g2⟩ := goodH_xrun (t := t) (k := k) xs (goodH_open t k)
+  obtain ⟨a, b, c⟩ := g1.loc
+  exact ⟨a, b, c, g2⟩
+
 /-- `fcppt::parse::phrase_parse` itself (the function-try-block included): the result is the one of
 the index semantics whenever that returns. -/
 theorem phrase_result (t : List Ch) (ops : List Op) (log : List Ev) (sk : Sk) (p : P) (r : R) (j : Nat) :
